@@ -53,9 +53,12 @@ def parts_for(prop, tier):
         ps = [dict(name="hash", args=["-mode", "hash"], race=False),
               dict(name="deniable", args=["-mode", "deniable"], race=T)]
         return ps
-    if prop in ("C02", "C18"):
-        # the in-process monitors plus the build-variant transcript differential (handled by variant_step)
-        return one
+    if prop == "C02":
+        ps = [dict(name="main", args=[], race=False),
+              dict(name="ct", args=[], race=False, target="./cmd/childct", tags="verif constantTime")]
+        if T:
+            ps.append(dict(name="ct-purego", args=[], race=False, target="./cmd/childct", tags="verif constantTime purego"))
+        return ps
     return one
 
 
@@ -236,14 +239,22 @@ def main():
 
     parts = parts_for(prop, tier)
     need_race = any(p.get("race") for p in parts)
-    need_plain = any(not p.get("race") for p in parts)
     suffix = "" if os.path.realpath(REPO) == "/repo" else "-" + hashlib.sha1(REPO.encode()).hexdigest()[:8]
-    bin_plain = os.path.join(BUILD, "child" + suffix)
-    bin_race = os.path.join(BUILD, "child-race" + suffix)
-    if need_plain and not build("./cmd/child", bin_plain):
-        return broken(prop, tier, seed, evfile, "build failed", t_start)
-    if need_race and not build("./cmd/child", bin_race, race=True):
-        return broken(prop, tier, seed, evfile, "race build failed", t_start)
+    bins = {}
+    for part in parts:
+        target = part.get("target", "./cmd/child")
+        tags = part.get("tags", "verif")
+        race = bool(part.get("race"))
+        bkey = (target, tags, race)
+        if bkey not in bins:
+            name = os.path.basename(target) + ("-race" if race else "")
+            if tags != "verif":
+                name += "-" + re.sub(r"[^A-Za-z0-9]+", "_", tags)
+            out = os.path.join(BUILD, name + suffix)
+            if not build(target, out, tags=tags, race=race):
+                return broken(prop, tier, seed, evfile, "build failed: %s tags=%s race=%s" % (target, tags, race), t_start)
+            bins[bkey] = out
+        part["bin"] = bins[bkey]
 
     known = load_known()
     summaries = []
@@ -254,7 +265,7 @@ def main():
     race_distinct = {}
     timeout = int(os.environ.get("VERIF_TIMEOUT", "5400" if tier == "thorough" else "1500"))
     for part in parts:
-        rc, dt, tail, racelog = run_child(bin_race if part.get("race") else bin_plain, prop, tier, seed, part, outdir,
+        rc, dt, tail, racelog = run_child(part["bin"], prop, tier, seed, part, outdir,
                                            timeout, extra, part.get("env"), race=part.get("race", False))
         sfile = os.path.join(outdir, "summary.%s.json" % part["name"])
         s = None
